@@ -25,9 +25,14 @@ impl ExactPhase {
 }
 
 fn wave_ok(phase: f64, sine: f64, saw: f64, square: f64) -> Option<String> {
-    let es = (PI2 * phase).sin();
-    if sine != es && !(sine.is_nan() && es.is_nan()) {
-        return Some(format!("sine at phase {phase} = {sine}, sin(2 pi phase) = {es}"));
+    // sin(2 pi phase) over the reals: the f64 product 2 pi x phase carries half an ulp of the
+    // argument (and the f64 constant 2 pi another 0.39), which a correct implementation may or may
+    // not compensate; both results are libm values (< 1 ulp each). Everything beyond that is an error.
+    let arg = PI2 * phase;
+    let es = arg.sin();
+    let tol = 1.5 * arg.abs() * 2f64.powi(-53) * (arg.cos().abs() + 2f64.powi(-20)) + 3.0 * es.abs() * 2f64.powi(-52) + 1e-300;
+    if !((sine - es).abs() <= tol) && !(sine.is_nan() && es.is_nan()) {
+        return Some(format!("sine at phase {phase} = {sine}, sin(2 pi phase) = {es} (difference {:e}, rounding allows {tol:e})", (sine - es).abs()));
     }
     if saw != 1.0 - 2.0 * phase {
         return Some(format!("saw at phase {phase} = {saw}, 1 - 2 phase = {}", 1.0 - 2.0 * phase));
@@ -319,10 +324,10 @@ fn main() {
     ctx.add_evals(evals.load(Relaxed));
     ctx.set("exhaustive", json!(false));
     ctx.set("exhaustive_scope", json!("finite alphabets of steps / frequency sequences / seeds, enumerated completely; every per-frame sequence over 4 letters to the stated length; all 2^64 seeds and arbitrary real frequencies are not covered"));
-    ctx.rule(&format!("constant frequency: 10 dyadic steps x 3 rates (phase law exact: phase_n == frac(n*step), first phase 0, phase in [0,1)) and 8 non-dyadic (hz, rate) pairs run for {long} frames (tolerance n*2^-50); sine == sin(2 pi phase), saw == 1 - 2 phase, square == +1 for phase < 1/2 else -1, exactly, with the phase taken from an identically constructed Phase run in lock step; all outputs in [-1,1]; per-frame frequency: every sequence over 4 letters of length <= {maxl} (dyadic alphabet at rate 8, audio alphabet at 44100; and over {{0, 440, rate/2, 1.25 rate, 2.5 rate}} to length 5 at 44100, 48000, 88200, 96000, 192000 and 50000 Hz) through rate.hz(instrumented signal): one frequency frame consumed per output frame for phase, sine, saw and square; Phase::next_phase_wrapped_to called directly with one wrap value in {{1/4, 1/2, 1, 2, 65536}} for up to 8 calls x 10 dyadic steps: call n returns (n x step) mod the wrap value, exactly; noise: 9 boundary seeds x 2^20 frames + every 64th seed below {dense}: range, clone/restart reproduce, frame k of noise(s) == frame 0 of noise(s+k); simplex: all multiples of 2^-8 in [0,65536) (quick: the first 2^22) and non-dyadic runs: range, purity; evaluations = frames generated; distinct by configuration"));
+    ctx.rule(&format!("constant frequency: 10 dyadic steps x 3 rates (phase law exact: phase_n == frac(n*step), first phase 0, phase in [0,1)) and 8 non-dyadic (hz, rate) pairs run for {long} frames (tolerance n*2^-50); sine == sin(2 pi phase) within the rounding of the argument (1.5 x |arg| x 2^-53 x |cos arg|) plus 3 ulp of the result, saw == 1 - 2 phase and square == +1 for phase < 1/2 else -1 exactly, with the phase taken from an identically constructed Phase run in lock step; all outputs in [-1,1]; per-frame frequency: every sequence over 4 letters of length <= {maxl} (dyadic alphabet at rate 8, audio alphabet at 44100; and over {{0, 440, rate/2, 1.25 rate, 2.5 rate}} to length 5 at 44100, 48000, 88200, 96000, 192000 and 50000 Hz) through rate.hz(instrumented signal): one frequency frame consumed per output frame for phase, sine, saw and square; Phase::next_phase_wrapped_to called directly with one wrap value in {{1/4, 1/2, 1, 2, 65536}} for up to 8 calls x 10 dyadic steps: call n returns (n x step) mod the wrap value, exactly; noise: 9 boundary seeds x 2^20 frames + every 64th seed below {dense}: range, clone/restart reproduce, frame k of noise(s) == frame 0 of noise(s+k); simplex: all multiples of 2^-8 in [0,65536) (quick: the first 2^22) and non-dyadic runs: range, purity; evaluations = frames generated; distinct by configuration"));
     ctx.sample(json!({"sys":"var","rate":b(8.0),"hzs":[b(6.0), b(20.0), b(0.0), b(1.0)],"dyadic":true}));
     ctx.sample(json!({"sys":"noise","seed":"4294967295","frames":1048576}));
     ctx.assume("seeds with seed + frames >= 2^64 are excluded: the internal counter then overflows (a panic in debug builds, a wrap in release), which the property does not speak about");
-    ctx.assume("libm sin is the reference for the sine shape (same function as the implementation in the std build)");
+    ctx.assume("libm sin (accurate to < 1 ulp) is the reference for the sine shape");
     ctx.finish();
 }
